@@ -113,6 +113,35 @@ theorem coo_roundtrip_partial (lin : Nat → Int) (nz : Nat → Bool) (quad : Na
   · rw [cooDump, coo_linear lin nz quad _ hnd' u]; simp only [hp.mem_iff]
   · rw [cooDump, coo_quadratic lin nz quad hsym _ hnd' u v huv]; simp only [hp.mem_iff]
 
+/-- COO writer as coded (pairs `(u, v)` over the *sorted labels*, `v` from `u` on): the lines come out in strictly
+    increasing lexicographic order of `(u, v)`, always with the smaller **label** first (upper triangle by label — also
+    for labels with gaps or not starting at 0), so no interaction is written twice -/
+theorem coo_emission_order (lin : Nat → Int) (nz : Nat → Bool) (quad : Nat → Nat → Option Int) (labels : List Nat) (hnd : labels.Nodup) :
+    (cooDump labels lin nz quad).Pairwise tripleLt ∧
+    ∀ t ∈ cooDump labels lin nz quad, t.1 ≤ t.2.1 ∧ t.1 ∈ labels ∧ t.2.1 ∈ labels := by
+  have hp := List.mergeSort_perm labels (fun a b => decide (a ≤ b))
+  obtain ⟨h1, h2⟩ := cooRows_sorted lin nz quad _ (sorted_lt_of_nodup labels hnd)
+  exact ⟨h1, fun t ht => ⟨(h2 t ht).1, hp.mem_iff.mp (h2 t ht).2.1, hp.mem_iff.mp (h2 t ht).2.2⟩⟩
+
+/-- the vartype header: written and read back it gives the vartype; an explicit `vartype` argument that agrees is
+    accepted, one that disagrees is refused, and without header and argument loading is refused -/
+theorem coo_vartype_header (vt vt' : VT) (hne : vt' ≠ vt) :
+    cooLoadVartype none (cooHeader true vt) = some vt ∧
+    cooLoadVartype (some vt) (cooHeader true vt) = some vt ∧
+    cooLoadVartype (some vt) (cooHeader false vt) = some vt ∧
+    cooLoadVartype (some vt') (cooHeader true vt) = none ∧
+    cooLoadVartype none (cooHeader false vt) = none := by
+  refine ⟨by simp [cooHeader, cooLoadVartype], by simp [cooHeader, cooLoadVartype], rfl, ?_, rfl⟩
+  simp [cooHeader, cooLoadVartype, Ne.symm hne]
+
+/-- the `sort_indices` block of the Python fallback (object-dtype models, vartype views) **as coded** — swap, one
+    `lexsort` permutation applied to the row array, the column array and the bias array: the three sorted arrays zipped
+    together are a permutation of the (row ≤ col normalised) input triples, i.e. every bias stays with its own pair.
+    `bqm_vectors_roundtrip` (`py = true`) is proved on this form. -/
+theorem fallback_sort_keeps_triples (q : QVec) (h1 : q.rows.length = q.cols.length) (h2 : q.cols.length = q.biases.length) :
+    (sortIndicesPy q).triples.Perm (cooNormalise q.triples) :=
+  sortIndicesPy_perm q h1 h2
+
 /-- `cooLoad` is those sums -/
 theorem cooLoad_eq (t : List (Nat × Nat × Int)) : cooLoad t = (linSum t, quadSum t) := rfl
 
